@@ -35,6 +35,8 @@ import LinVerif.Model.RootMerge
 import LinVerif.Model.LeafCollect
 import LinVerif.Model.RowRoute
 import LinVerif.Model.TaskMgr
+import LinVerif.Model.C12LeafFilter
+import LinVerif.Model.C12FieldWire
 import LinVerif.Generated.C12
 
 namespace LinVerif.Driver.C12
@@ -467,6 +469,79 @@ def stepLi (st : DSt) (ws : List String) : DSt × String :=
       ({ st with li := some s' }, showLi s')
     | _, _ => (st, "bad-op")
 
+/-! ### `filter`: one node's where-clause path (Model/C12LeafFilter.lean) -/
+
+open C12LeafFilter in
+/-- one RPN token of a condition; tag keys are numbered by `keyIdx` -/
+def condTok (keyIdx : String → Nat) (stack : List (Cond Pat)) (t : String) : Option (List (Cond Pat)) :=
+  match t.splitOn ":", stack with
+  | ["eq", k, v], st => some (.atom ⟨keyIdx k, .eq v⟩ :: st)
+  | ["in", k, vs], st => some (.atom ⟨keyIdx k, .isIn (vs.splitOn ";")⟩ :: st)
+  | ["like", k, p], st => some (.atom ⟨keyIdx k, .like p⟩ :: st)
+  | ["not"], c :: st => some (.not c :: st)
+  | ["par"], c :: st => some (.paren c :: st)
+  | ["and"], r :: l :: st => some (.and l r :: st)
+  | ["or"], r :: l :: st => some (.or l r :: st)
+  | _, _ => none
+
+open C12LeafFilter in
+def parseCond (keyIdx : String → Nat) (s : String) : Option (Cond Pat) :=
+  match (s.splitOn "/").foldl (fun acc t => acc.bind (fun st => condTok keyIdx st t)) (some []) with
+  | some [c] => some c
+  | _ => none
+
+open C12LeafFilter in
+/-- `id/v0/v1/…`: the series' values for the metric's tag keys, by position (`~`: the series does
+not carry that tag key) -/
+def parseSeries (s : String) : Option (Series String) :=
+  match s.splitOn "/" with
+  | id :: vals =>
+    match id.toNat? with
+    | some id => some ⟨id, ((List.range vals.length).zip vals).filter (fun p => p.2 != "~")⟩
+    | none => none
+  | [] => none
+
+open C12LeafFilter in
+def parseShard (t : String) : Option (Shard String) :=
+  match kv t "sh" with
+  | none => none
+  | some "-" => some []
+  | some body => (body.splitOn ";").foldr (fun x acc => match parseSeries x, acc with
+      | some s, some l => some (s :: l) | _, _ => none) (some [])
+
+open C12LeafFilter in
+/-- `filter <rpn> tk=<k0,k1,…> keys=<the node's schema keys | none> sh=… sh=…`. Tag key ids are the
+positions in `tk` (the order every node creates them in, from 0); a key no schema has gets the next
+number. `keys=none`: the node never saw the metric (`metadataLookup` fails before the lookup). -/
+def doFilter (ws : List String) : String :=
+  match ws with
+  | cond :: tk :: keys :: shards =>
+    match kv tk "tk", kv keys "keys" with
+    | some tk, some keys =>
+      let names := tk.splitOn ","
+      let keyIdx : String → Nat := fun k => (names.idxOf? k).getD names.length
+      match parseCond keyIdx cond, shards.foldr (fun x acc => match parseShard x, acc with
+          | some s, some l => some (s :: l) | _, _ => none) (some []) with
+      | some c, some node =>
+        if keys == "none" then "nf-metric" else
+        let ks := (keys.splitOn ",").filterMap (fun k => names.idxOf? k)
+        match nodeFilter Generated.C12.lookupFailFast Pat.accept ks node c with
+        | .error .tagKeyNotFound => "nf-key"
+        | .error .tagValueNotFound => "nf-val"
+        | .ok perShard => "ids " ++ "|".intercalate (perShard.map (fun ids =>
+            if ids.isEmpty then "-" else ",".intercalate ((sortNat ids.eraseDups).map toString)))
+      | _, _ => "bad-op"
+    | _, _ => "bad-op"
+  | _ => "bad-op"
+
+/-- where `fieldIterator.MarshalBinary` declares its running slot index (read from the source):
+every payload a node sends is shown as the receiver decodes it (Model/C12FieldWire.lean) -/
+def wireResetIdx : Bool := decide (Generated.C12.fieldMarshalIdxDepth = 1)
+
+def overWire : Resp → Resp
+  | .ok p => .ok (C12FieldWire.wirePayload wireResetIdx p)
+  | r => r
+
 def step (st : DSt) (ws : List String) : DSt × String :=
   match ws with
   | ["plan", a, s, sc] =>
@@ -510,7 +585,7 @@ def step (st : DSt) (ws : List String) : DSt × String :=
     match id.toNat? with
     | some id =>
       match getCtx st id with
-      | some c => if c.done then (st, showResp st c.taskResponse) else (st, "pending")
+      | some c => if c.done then (st, showResp st (overWire c.taskResponse)) else (st, "pending")
       | none => (st, "bad-op")
     | none => (st, "bad-op")
   | "leaf" :: r :: cap :: toks =>
@@ -520,7 +595,7 @@ def step (st : DSt) (ws : List String) : DSt × String :=
       let pay := leafPayload variant p.specs cap p.series
       let h : Tag → Nat := fun t => ((p.hashes.find? (fun q => q.1 == t)).map Prod.snd).getD 0
       let outs := if r = 1 then [pay] else splitByHash h r pay
-      (st', " | ".intercalate (outs.map (showPayload st')))
+      (st', " | ".intercalate (outs.map (fun o => showPayload st' (C12FieldWire.wirePayload wireResetIdx o))))
     | _, _, _ => (st, "bad-op")
   | ["result", id, a, l, s, o] =>
     match id.toNat?, kv a "all", kv l "limit", kv s "sel", kv o "ord" with
@@ -546,6 +621,7 @@ def step (st : DSt) (ws : List String) : DSt × String :=
     | _, _ => (st, "bad-op")
   | "route" :: rest => (st, doRoute rest)
   | "families" :: rest => (st, doFamilies rest)
+  | "filter" :: rest => (st, doFilter rest)
   | w :: _ => if w.startsWith "li-" then stepLi st ws else if w.startsWith "lc-" then stepLc st ws else if w.startsWith "tm-" then stepTm st ws else (st, "bad-op")
   | _ => (st, "bad-op")
 
